@@ -219,7 +219,8 @@ impl<'r> B<'r> {
         let (br, dr) = self.types(spec.ret);
         let (bdesc, ddesc) = (mdesc(&bp, &br), mdesc(&dp, &dr));
         // ---- holder chain
-        let mut b = match ns { "direct" | "none" | "interface" => self.r.below(3), "super1" | "direct_and_super" => self.r.usize_in(1, 2), _ => 2 };
+        let deep = self.r.chance(1, 4);
+        let mut b = match ns { "direct" | "none" | "interface" => if deep { self.r.usize_in(3, 4) } else { self.r.below(3) }, "super1" | "direct_and_super" => if deep { self.r.usize_in(3, 4) } else { self.r.usize_in(1, 2) }, _ => if deep { self.r.usize_in(3, 4) } else { 2 } };
         if (spec.place != Place::Same || tgt == "only_in_super") && b == 0 { b = 1; }
         let gap: Option<usize> = if self.r.chance(1, 16) { Some(self.r.below(b + 1)) } else { None };
         let top_itf = spec.holder_itf || (spec.place == Place::Same && b >= 1 && self.r.chance(1, 4));
@@ -239,13 +240,43 @@ impl<'r> B<'r> {
         let mut isrc: Option<String> = None;
         if ns == "interface" {
             let i = self.new_class(true, OBJECT, vec![], true);
-            let at = if b == 0 || self.r.chance(3, 5) { b } else { b - 1 };
+            let at = if b == 0 || self.r.chance(3, 5) { b } else { self.r.below(b) };
             let holder = h[at].clone();
-            self.class_mut(&holder).interfaces.push(i.clone());
+            match self.r.below(4) {
+                0 | 1 => self.class_mut(&holder).interfaces.push(i.clone()),
+                2 => {
+                    // diamond: two intermediate interfaces, both below a filler F; the naming interface only behind the revisited F
+                    let f = self.new_class(true, OBJECT, vec![], true);
+                    let m1 = self.new_class(true, OBJECT, vec![f.clone()], true);
+                    let m2 = self.new_class(true, OBJECT, vec![f.clone(), i.clone()], true);
+                    let mut ps = vec![m1.clone(), m2.clone()]; if self.r.bool() { ps.reverse(); }
+                    if self.r.chance(1, 3) { self.map_absent.insert(m2.clone()); }
+                    for x in [&f, &m1, &m2] { let x = x.clone(); self.map_class(&x); }
+                    self.class_mut(&holder).interfaces.extend(ps);
+                }
+                _ => {
+                    // the holder lists fillers and the naming interface in any order; a lower class of the chain re-declares some of them
+                    let mut ps = vec![i.clone()];
+                    for _ in 0..self.r.usize_in(2, 3) { let f = self.new_class(true, OBJECT, vec![], true); self.map_class(&f); ps.push(f); }
+                    self.r.shuffle(&mut ps);
+                    self.class_mut(&holder).interfaces.extend(ps.clone());
+                    if at < b { let mut again = ps.clone(); self.r.shuffle(&mut again); again.truncate(self.r.usize_in(1, again.len())); let low = h[self.r.usize_in(at + 1, b)].clone(); for x in again { if !self.class_mut(&low).interfaces.contains(&x) { self.class_mut(&low).interfaces.push(x); } } }
+                }
+            }
             if at != b && self.r.chance(1, 3) { self.map_absent.insert(holder); }
             isrc = Some(i);
         }
-        if ns == "super2_unmapped_mid" { self.map_absent.insert(h[1].clone()); }
+        if ns == "super2_unmapped_mid" { let k = self.r.usize_in(1, b - 1); self.map_absent.insert(h[k].clone()); if b > 2 && self.r.bool() { let k2 = self.r.usize_in(1, b - 1); self.map_absent.insert(h[k2].clone()); } }
+        // holder classes carry filler interfaces (lists up to 4, any order), some of them redundantly re-declared further down
+        if self.r.bool() {
+            let mut fillers = vec![];
+            for _ in 0..self.r.usize_in(1, 3) { let k = self.r.below(2); let ps: Vec<String> = fillers.iter().take(k).cloned().collect(); let f = self.new_class(true, OBJECT, ps, true); if self.r.chance(2, 3) { self.map_class(&f); } fillers.push(f); }
+            for _ in 0..self.r.usize_in(1, 4) {
+                let c = self.r.pick(&h).clone(); let f = self.r.pick(&fillers).clone();
+                let len = self.class_mut(&c).interfaces.len();
+                if len < 4 && c != f && !self.class_mut(&c).interfaces.contains(&f) { let at = self.r.below(len + 1); self.class_mut(&c).interfaces.insert(at, f); }
+            }
+        }
         if tgt == "class_lacks" { self.map_absent.insert(hb.clone()); }
         // ---- names
         let n = self.fresh();
@@ -293,7 +324,7 @@ impl<'r> B<'r> {
         // ---- overridden declarations up the chain
         let mut declarers: Vec<String> = vec![];
         match ns {
-            "super1" => { declarers.push(h[b - 1].clone()); if b == 2 && self.r.chance(1, 3) { declarers.push(h[0].clone()); } }
+            "super1" => { declarers.push(h[b - 1].clone()); if b >= 2 && self.r.chance(1, 3) { declarers.push(h[0].clone()); } }
             "super2_mapped_mid" | "super2_unmapped_mid" => { declarers.push(h[0].clone()); if self.r.chance(1, 4) { declarers.push(h[1].clone()); } }
             "interface" => declarers.push(isrc.clone().expect("isrc")),
             "direct_and_super" => declarers.push(h[b - 1].clone()),
@@ -324,7 +355,7 @@ impl<'r> B<'r> {
         let mut believed = nm.clone();
         match ns {
             "direct" => { self.map_method(&hb, &b_int, &b_int_desc, Some(nm.clone())); }
-            "super1" => { let c = h[b - 1].clone(); self.map_method(&c, &fam, &b_int_desc, Some(nm.clone())); if b == 2 && self.r.chance(1, 3) { let c0 = h[0].clone(); self.map_method(&c0, &fam, &b_int_desc, Some(format!("{nm}Top"))); } }
+            "super1" => { let c = h[b - 1].clone(); self.map_method(&c, &fam, &b_int_desc, Some(nm.clone())); if b >= 2 && self.r.chance(1, 3) { let c0 = h[0].clone(); self.map_method(&c0, &fam, &b_int_desc, Some(format!("{nm}Top"))); } }
             "super2_mapped_mid" | "super2_unmapped_mid" => { let c = h[0].clone(); self.map_method(&c, &fam, &b_int_desc, Some(nm.clone())); }
             "interface" => { let c = isrc.clone().expect("isrc"); self.map_method(&c, &fam, &b_int_desc, Some(nm.clone())); }
             "direct_and_super" => { self.map_method(&hb, &b_int, &b_int_desc, Some(nm.clone())); let c = h[b - 1].clone(); self.map_method(&c, &fam, &b_int_desc, Some(format!("{nm}Super"))); }
@@ -345,7 +376,7 @@ impl<'r> B<'r> {
             "same" => { self.map_method(&hb, &s_int, &s_int_desc, Some(believed.clone())); }
             "different_with_children" => { let old = format!("oldDelegateName{}", self.fresh()); let mut r2 = self.r.fork(); if let Some(m) = self.map_method(&hb, &s_int, &s_int_desc, Some(old)) { children(m, &mut r2); } }
             "no_named_name" => { let mut r2 = self.r.fork(); if let Some(m) = self.map_method(&hb, &s_int, &s_int_desc, None) { children(m, &mut r2); } }
-            "only_in_super" => { let c = h[b - 1].clone(); let old = format!("superDelegateName{}", self.fresh()); let mut r2 = self.r.fork(); if let Some(m) = self.map_method(&c, &s_int, &s_int_desc, Some(old)) { children(m, &mut r2); } }
+            "only_in_super" => { let c = h[self.r.below(b)].clone(); let old = if self.r.bool() { believed.clone() } else { format!("superDelegateName{}", self.fresh()) }; let mut r2 = self.r.fork(); if let Some(m) = self.map_method(&c, &s_int, &s_int_desc, Some(old)) { children(m, &mut r2); } }
             _ => {}
         }
         self.callable.push((ref_owner.clone(), dn.clone(), ddesc.clone(), d_static, owner_itf));
